@@ -48,6 +48,13 @@ class ScriptEnd(BaseException):
     """The script is exhausted and there is no deadline: the real call would block forever."""
 
 
+class Livelock(BaseException):
+    """The code under test keeps polling a socket whose script ended long ago."""
+
+
+SPIN_LIMIT = 5000
+
+
 class _Clock:
     now = 0
 
@@ -77,6 +84,9 @@ class _FakeSelector:
         self.events = events
 
     def select(self, timeout):
+        self.fd.spins = getattr(self.fd, "spins", 0) + 1
+        if self.fd.spins > SPIN_LIMIT:
+            raise Livelock()
         direction, dt = self.fd.pending
         if not (self.events & direction):
             dt = None  # waiting for the wrong kind of readiness: never satisfied
@@ -303,6 +313,7 @@ def exc_code(e):
     X = dns.exception
     table = [
         (ScriptEnd, 98),
+        (Livelock, 93),
         (X.Timeout, 1),
         (dns.query.UnexpectedSource, 2),
         (dns.query.BadResponse, 3),
@@ -1034,7 +1045,7 @@ def _call(flavour, sync_fn, async_fn):
         if flavour == 0:
             return sync_fn(), None
         return run_async(async_fn()), None
-    except ScriptEnd as e:
+    except (ScriptEnd, Livelock) as e:
         return None, exc_code(e)
     except Exception as e:  # noqa
         return None, exc_code(e)
@@ -1252,6 +1263,12 @@ def oracle1(ctx, kind, case, out, flavour):
         ctx.count("exchange:%s:%s" % (kind, "err%d" % head.code if isinstance(head, Err) else "ok"))
         ctx.notes["extra_evaluations"] = ctx.notes.get("extra_evaluations", 0) + 1
         ctx.notes["extra_nontrivial"] = ctx.notes.get("extra_nontrivial", 0) + 1
+    hd = out
+    while isinstance(hd, list) and hd:
+        hd = hd[-1] if isinstance(hd[-1], Err) else hd[0]
+    if isinstance(hd, Err) and hd.code in (93, 94, 95, 96, 97):
+        fail("livelock / harness-level check failed: " + hd.text)
+        return F
     if isinstance(out, Err) and out.code >= 90 and out.code != 98:
         fail("harness-level check failed or unexpected exception: " + out.text)
         return F
@@ -1296,6 +1313,8 @@ def oracle1(ctx, kind, case, out, flavour):
         else:
             if isinstance(out[-1], list) and out[-1][0] != s[pos:]:
                 fail("octets after the requested count were not left in the stream")
+            if isinstance(out[-1], list) and exp is not None and not (out[-1][1] == now or out[-1][1] < exp):
+                fail("a read succeeded although the deadline had expired while waiting")
     elif op == 7:
         _, fl, data, evs, exp, now = case
         d = stream_of(data)
@@ -1342,6 +1361,8 @@ def oracle1(ctx, kind, case, out, flavour):
         if isinstance(out, Err):
             return F
         wire, m, tm, sent, rest = out
+        if timeout is not None and not (tm == 0 or tm < timeout):
+            fail("tcp() returned an answer although the deadline had expired while waiting")
         if sent != struct.pack("!H", len(qwire)) + qwire:
             fail("tcp() did not send the length-prefixed query")
         if len(s) < 2 or s[2: 2 + struct.unpack("!H", s[:2])[0]] != wire or len(wire) != struct.unpack("!H", s[:2])[0]:
@@ -1440,6 +1461,10 @@ def oracle_udp(kind, case, out, fail):
             fail("Timeout without a deadline")
         return []
     # a message was returned
+    if case[0] == 5 and timeout is not None and not (out[3] == 0 or out[3] < timeout):
+        fail("an answer was returned although the deadline had expired while waiting for it")
+    if case[0] == 4 and exp is not None and not (out[3] == now or out[3] < exp):
+        fail("an answer was returned although the deadline had expired while waiting for it")
     if last is None or last[0] != 0:
         fail("returned message is not the datagram that was read last")
         return []
